@@ -97,6 +97,12 @@ class CompiledWithContext(CompiledExpression):
         return d
 
 
+@expr_dataclass(hash=False)
+class UHashInherit(Variable):
+    """hash=False and no __hash__ of its own: it keeps the caching hash it inherits"""
+    label: str
+
+
 class LegacyVar(Variable):
     """undecorated subclass of a dataclass node, no extra state"""
     mapper_method = "map_legacy_var"
@@ -132,9 +138,10 @@ class PureLegacy(Expression):
 
 USER_CLASSES = {"UTag": UTag, "UTag3": UTag3, "UNamed": UNamed, "UHashless": UHashless,
                 "UDerived": UDerived, "SubVariable": SubVariable, "SubCall": SubCall,
+                "UHashInherit": UHashInherit,
                 "LegacyVar": LegacyVar,
                 "LegacyVarX": LegacyVarX, "PureLegacy": PureLegacy}
 USER_FIELDS = {"UTag": ["e", "s"], "UTag3": ["e", "s", "any"], "UNamed": ["s", "ci"],
                "UHashless": ["s", "any"], "UDerived": ["e"], "SubVariable": ["s"],
-               "SubCall": ["e", "E0"],
+               "SubCall": ["e", "E0"], "UHashInherit": ["s", "s"],
                "LegacyVar": ["s"], "LegacyVarX": ["s", "any"], "PureLegacy": ["any", "any"]}
